@@ -49,6 +49,10 @@ use std::{
 /// Logging target for the file.
 const LOG_TARGET: &str = "litep2p::substream";
 
+#[cfg(litep2p_verif)]
+#[path = "../verif/c04.rs"]
+pub(crate) mod verif_c04;
+
 macro_rules! poll_flush {
     ($substream:expr, $cx:ident) => {{
         match $substream {
